@@ -211,8 +211,18 @@ def run(ctx):
             adv = (int(v) - 1) // 2
         elif d_true is not None:
             adv = (d_true - 1) // 2
-        if code.family == "CyclicCodeEncoder" and k > 12 and d_true is not None:
-            adv = (d_true - 1) // 2         # minimum_distance() is weight(g) there (C03 known finding): use the true capability
+        if code.family == "CyclicCodeEncoder" and k > 12:
+            # minimum_distance() is weight(g) there (C03 known finding): use the true capability, from the codebook or, for
+            # high-rate codes, from the dual (MacWilliams); if neither is computable the advertised value cannot be relied on here
+            if d_true is None and n - k <= 16:
+                try:
+                    d_true = fec.dual_min_distance(gs, hs_ref, n, k)
+                except Exception:
+                    d_true = None
+            if d_true is None:
+                ctx.count("pairings-skipped-unknown-distance")
+                continue
+            adv = (d_true - 1) // 2
         if adv is None:
             continue
         t = adv
